@@ -213,6 +213,7 @@ pub fn scalar_le_positional(s: S) -> [u8; SLEN] {
         match c.const_of(s.0) {
             Some(v) => b[..CONST_BYTES].copy_from_slice(&v.to_le_bytes()),
             None => {
+                c.epoch += 1;
                 let k = c.slot_of(s.0);
                 debug_assert!(k < SLOTS);
                 b[CONST_BYTES + k] = 1;
